@@ -51,6 +51,7 @@ def cases(tier):
         for y in range(4):
             yield {"k": "lattice", "x": x, "y": y}
     yield {"k": "modes"}
+    yield {"k": "ro-reads"}
     for seed in ["rich", "mini"] + (["light", "block"] if tier == "thorough" else []):
         ops = [op for op in O.enabled(explorer.seed_model(seed), {"delete_modes": True}) if op[0] != "reopen"]
         n = 60
@@ -400,7 +401,87 @@ def run_ro_setters(case, r):
         env.rm(twin)
 
 
+def lookups(f):
+    """every lookup form of every container of the file -> canonical result (reads only)"""
+    out = {}
+    walker.CORE[0] = True
+    try:
+        def cont(label, c):
+            ids = [e.id for e in c]
+            names = [e.name for e in c] if len(c) and hasattr(c[0], "name") else []
+            out[label + "|iter"] = [walker.walk_obj(e) for e in c]
+            for i in ids:
+                out[label + "|id:" + i] = walker.walk_obj(c[i])
+            for n in names:
+                out[label + "|name:" + n] = walker.walk_obj(c[n])
+            for k in range(len(ids)):
+                out[label + "|pos:%d" % k] = walker.walk_obj(c[k])
+        cont("blocks", f.blocks)
+        cont("sections", f.sections)
+        for b in f.blocks:
+            for cn in ("data_arrays", "data_frames", "tags", "multi_tags", "groups", "sources"):
+                cont("%s/%s" % (b.name, cn), getattr(b, cn))
+            for g in b.groups:
+                for cn in ("data_arrays", "tags", "multi_tags", "sources"):
+                    cont("%s/groups/%s/%s" % (b.name, g.name, cn), getattr(g, cn))
+            for t in list(b.tags) + list(b.multi_tags):
+                cont("%s/%s/references" % (b.name, t.name), t.references)
+        for sec in f.find_sections():
+            cont("section:%s/props" % sec.id, sec.props)
+            cont("section:%s/sections" % sec.id, sec.sections)
+    finally:
+        walker.CORE[0] = False
+    return out
+
+
+def run_ro_reads(case, r):
+    """reads in a read-only session return the same results as in a writable session - also when entities of
+    different parents share a name or (after a keep-id copy) an id but differ in content"""
+    path = env.fresh_path("c11rr_")
+    s = O.Session(path=path, build=explorer.SEEDS["rich"])
+    f = s.f
+    b, o = f.blocks["blk"], f.blocks["Ablk"]
+    for kind, name in (("data_array", "feat"), ("data_array", "evt"), ("tag", "tag2"), ("data_frame", "frame")):
+        pass
+    c1 = o.create_data_array(copy_from=b.data_arrays["feat"])            # same name, same id, other block
+    c1.label = "copy in the other block"
+    c1[0] = 999
+    c2 = o.create_data_array(name="renamed", copy_from=b.data_arrays["apos"])
+    c2.definition = "renamed keep-id copy"
+    sec = f.sections["other"].copy_section(f.sections["sec"].sections["sec"], name="copied")   # keep id, other parent
+    sec.repository = "copy repo"
+    f.sections["other"].create_property(copy_from=f.sections["sec"].props["pint"], name="pint-copy").values = [42]
+    f.close()
+    res = {}
+    for mode, label in ((nix.FileMode.ReadWrite, "rw"), (nix.FileMode.ReadOnly, "ro"), (nix.FileMode.ReadOnly, "ro-reversed")):
+        ff = nix.File.open(path, mode)
+        try:
+            if label == "ro-reversed":
+                # a different order of first accesses must not matter
+                for blk in reversed(list(ff.blocks)):
+                    for e in reversed(list(blk.data_arrays)):
+                        _ = blk.data_arrays[e.id].label
+                for sc in reversed(ff.find_sections()):
+                    for pr in sc.props:
+                        _ = sc.props[pr.id].values
+            res[label] = lookups(ff)
+        finally:
+            ff.close()
+    for label in ("ro", "ro-reversed"):
+        for k, v in res["rw"].items():
+            r.evals += 1
+            r.nontrivial += 1
+            if res[label].get(k) != v:
+                r.viol("C11|read-only|reads-differ-from-writable-session|%s|%s" % (label, k.split("|")[1].split(":")[0]),
+                       "lookup %s gives a different result in a %s session than in a writable session: %s" % (
+                           k[:80], label, "; ".join(walker.diff(v, res[label].get(k), limit=2))), {})
+                env.rm(path)
+                return
+    r.outcomes.add("ro-reads")
+    env.rm(path)
+
+
 def run_case(case):
     r = R()
-    {"lattice": run_lattice, "modes": run_modes, "ro-ops": run_ro_ops, "ro-setters": run_ro_setters}[case["k"]](case, r)
+    {"ro-reads": run_ro_reads, "lattice": run_lattice, "modes": run_modes, "ro-ops": run_ro_ops, "ro-setters": run_ro_setters}[case["k"]](case, r)
     return r
